@@ -2,10 +2,10 @@ CONSTANTS
  Confs <- MCConfs
  FixWaitErr = FALSE
  Reduce = TRUE
- MCShapes = {"img", "idx2", "art", "dtag"}
- MCPairs = {"tworeg", "samereg", "reg2dir"}
+ MCShapes = {"img", "idx2", "dtag"}
+ MCPairs = {"tworeg", "reg2dir"}
  MCOpts <- MCOptsCore
- MCFeats <- MCFeatsCore
+ MCFeats <- MCFeatsDefault
  MCInit = "corners"
  MCTag0 = {"none", "same"}
  MCByDigest = {FALSE}
